@@ -80,6 +80,12 @@ class Auto:
 
     def step(self, line):
         """-> expectation dict: kind in {gated, welcome, refuse464, no-completion, 433, 462, cap, 421, quit}"""
+        if line == "@rival":
+            # another connection registers the nickname this one has claimed but not yet registered
+            if self.nick is not None and not self.registered:
+                self.taken = set(self.taken) | {self.nick}
+                return {"kind": "rival", "nick": self.nick}
+            return {"kind": "rival", "nick": None}
         verb = line.split()[0].upper()
         args = line.split()[1:]
         if verb not in ("CAP", "PASS", "NICK", "USER", "AUTHENTICATE", "QUIT"):
@@ -115,6 +121,17 @@ class Auto:
     def complete(self):
         if self.nick is None or self.user is None or self.cap:
             return {"kind": "no-completion"}
+        if self.nick in self.taken:
+            # the claimed nickname was registered by somebody else meanwhile: refused, still unregistered
+            cu = self.users.get(self.user)
+            source = "%s!~%s@127.0.0.1" % (self.nick, self.user)
+            if cu is not None and cu[1] is not None and not glob.match(cu[1], source):
+                return {"kind": "no-completion", "why": "mask"}
+            need = cu[0] if (cu is not None and cu[0] is not None) else self.spw
+            if need is not None and self.pw != need:
+                self.closed = True
+                return {"kind": "refuse464"}
+            return {"kind": "433", "why": "late"}
         cu = self.users.get(self.user)
         source = "%s!~%s@127.0.0.1" % (self.nick, self.user)
         if cu is not None and cu[1] is not None and not glob.match(cu[1], source):
@@ -131,7 +148,7 @@ class Auto:
 def gate_alphabet(cfgname, reduced):
     spw, users = CONFIGS[cfgname]
     a = ["NICK gate1", "NICK taken", "USER plain 0 * :P", "CAP LS 302", "CAP END", "PRIVMSG obs :psst",
-         "JOIN #o"]
+         "JOIN #o", "@rival"]
     if spw:
         a += ["PASS srvpw", "PASS wrong"]
     else:
@@ -197,6 +214,8 @@ class GateRun:
         c = Conn(srv, "g")
         au = Auto(self.cfgname, {"taken", "obs"})
         trace = []
+        rival = None
+        cur_base = base
         for line in seq:
             if c.closed or au.closed:
                 break
@@ -204,6 +223,21 @@ class GateRun:
                 continue  # the gate is open now; what a registered user may do is not this check's business
             was_reg = au.registered
             exp = au.step(line)
+            if line == "@rival":
+                if exp["nick"] is not None and rival is None:
+                    rival = Conn(srv, "rival")
+                    spw = CONFIGS[self.cfgname][0]
+                    if spw:
+                        rival.cmd("PASS " + spw)
+                    rival.cmd("NICK " + exp["nick"])
+                    rl = rival.cmd("USER rival 0 * :R")
+                    if rival.welcomed != exp["nick"]:
+                        self.bad("gate:rival-refused", "sequence %s: a second connection could not register the nick %s "
+                                 "that the first had only claimed: %s" % (list(seq), exp["nick"], [m.raw for m in rl][:2]))
+                        break
+                    cur_base = self.state(srv)
+                trace.append((line, []))
+                continue
             lines = c.cmd(line)
             self.commands += 1
             codes = [m.verb for m in lines]
@@ -215,7 +249,7 @@ class GateRun:
             if k == "gated":
                 if codes != ["451"]:
                     sig = "gate:not-451|" + line.split()[0].upper()
-                elif self.hooks and self.state(srv) != base:
+                elif self.hooks and self.state(srv) != cur_base:
                     sig = "gate:state-changed|" + line.split()[0].upper()
             elif k == "welcome":
                 if "001" not in codes or c.closed:
@@ -256,6 +290,17 @@ class GateRun:
         if heard and not au.registered:
             self.bad("gate:revealed-to-observer", "sequence %s: observer got %s" % (list(seq), heard[:3]))
         c.close()
+        if rival is not None:
+            # the rival must have survived whatever the refused connection did, and its departure
+            if self.hooks:
+                time.sleep(0.01)
+                if au.registered is False and rival.welcomed not in (srv.snap()["users"]):
+                    self.bad("gate:rival-removed", "sequence %s: the user registered by another connection vanished "
+                             "when the refused connection left" % (list(seq),))
+            rl = rival.cmd("PING r")
+            if not any(m.verb == "PONG" for m in rl):
+                self.bad("gate:rival-lost", "sequence %s: the rival connection got %s" % (list(seq), [m.raw for m in rl][:2]))
+            rival.close()
         # no user may remain: wait until the state is back to the base line
         if self.hooks:
             deadline = time.monotonic() + 5
